@@ -1,1 +1,303 @@
-// placeholder
+// C10 / C11, scheduler layer: the real Runtime::{run_n_steps, run_threads_round_robin,
+// finish_thread_turn, drain_new_threads, update_status_helper, try_get_main} run against a
+// SCRIPTED thread step: VmGreenThread::run_n_steps is stubbed by a function that applies the
+// next symbolic outcome of that thread's script (continue / done / error / pending host call /
+// spawn) and logs the call.  The new-thread queue (mpsc) is a one-slot ghost.
+
+use std::sync::mpsc::TryRecvError;
+
+pub(super) const OUT_CONTINUE: u8 = 0;
+pub(super) const OUT_DONE: u8 = 1;
+pub(super) const OUT_ERROR: u8 = 2;
+pub(super) const OUT_HOST: u8 = 3;
+pub(super) const OUT_SPAWN: u8 = 4;
+
+pub(super) const NTHREADS: usize = 6; // ids 0..2 belong to runtime A, 3..5 to runtime B
+pub(super) const SCRIPT_LEN: usize = 4;
+pub(super) static mut SCRIPT: [[u8; SCRIPT_LEN]; NTHREADS] = [[0; SCRIPT_LEN]; NTHREADS];
+pub(super) static mut POS: [usize; NTHREADS] = [0; NTHREADS];
+pub(super) static mut LOG: [[u8; 8]; 2] = [[0; 8]; 2];
+pub(super) static mut LOGN: [usize; 2] = [0; 2];
+pub(super) static mut STEPPED_NON_RUNNABLE: bool = false;
+pub(super) static mut BAD_STEP_ARG: bool = false;
+// pending new thread per runtime (type-erased Box<VmGreenThread>)
+pub(super) static mut NEW_SLOT: [*mut u8; 2] = [std::ptr::null_mut(); 2];
+pub(super) static mut CUR_RT: usize = 0;
+pub(super) static mut SPAWNED: [bool; 2] = [false; 2];
+
+pub(super) fn scripted_error(kind_sel: u8) -> Box<VmError> {
+    Box::new(VmError {
+        kind: if kind_sel % 2 == 0 { VmErrorKind::DivisionByZero } else { VmErrorKind::IntegerOverflowUnderflow },
+        location: VmErrorLocation { filename: String::new(), lineno: 0, function_name: String::new() },
+        trace: Vec::new(),
+    })
+}
+
+pub(super) fn run_n_steps_stub(t: &mut VmGreenThread, steps: u32) {
+    unsafe {
+        let id = t.id as usize;
+        let rt = CUR_RT;
+        if !t.can_run() {
+            STEPPED_NON_RUNNABLE = true;
+        }
+        if steps != 1 {
+            BAD_STEP_ARG = true;
+        }
+        if LOGN[rt] < 8 {
+            LOG[rt][LOGN[rt]] = (id % 3) as u8;
+        }
+        LOGN[rt] += 1;
+        let p = POS[id];
+        let out = if p < SCRIPT_LEN { SCRIPT[id][p] } else { OUT_CONTINUE };
+        POS[id] = p + 1;
+        match out {
+            OUT_DONE => t.done = true,
+            OUT_ERROR => t.error = Some(scripted_error(id as u8)),
+            OUT_HOST => t.pending_host_func = Some(7),
+            OUT_SPAWN => {
+                if !SPAWNED[rt] {
+                    SPAWNED[rt] = true;
+                    let mut nt = Box::new(mk_thread(vec![Instr::Stop], vec![], vec![]));
+                    nt.id = (rt * 3 + 2) as u64;
+                    NEW_SLOT[rt] = Box::into_raw(Box::new(nt)) as *mut u8;
+                }
+            }
+            _ => {}
+        }
+    }
+}
+
+pub(super) fn try_recv_stub<T>(_r: &Receiver<T>) -> Result<T, TryRecvError> {
+    unsafe {
+        let rt = CUR_RT;
+        if NEW_SLOT[rt].is_null() {
+            Err(TryRecvError::Empty)
+        } else {
+            let b = Box::from_raw(NEW_SLOT[rt] as *mut T);
+            NEW_SLOT[rt] = std::ptr::null_mut();
+            Ok(*b)
+        }
+    }
+}
+
+pub(super) fn mk_runtime(rt: usize, nthreads: usize) -> Runtime {
+    let (sender, receiver) = mpsc::channel();
+    std::mem::forget(sender);
+    let mut q: VecDeque<Box<VmGreenThread>> = VecDeque::with_capacity(4);
+    let mut main = Box::new(mk_thread(vec![Instr::Stop], vec![], vec![]));
+    main.is_main = true;
+    main.id = (rt * 3) as u64;
+    q.push_back(main);
+    if nthreads > 1 {
+        let mut other = Box::new(mk_thread(vec![Instr::Stop], vec![], vec![]));
+        other.id = (rt * 3 + 1) as u64;
+        q.push_back(other);
+    }
+    Runtime { run_queue: q, new_threads: receiver, finished_main_thread: None }
+}
+
+pub(super) fn sym_scripts(allow_spawn: bool) {
+    // the same symbolic scripts for runtime A (ids 0..2) and runtime B (ids 3..5)
+    let mut i = 0;
+    while i < 3 {
+        let mut k = 0;
+        while k < SCRIPT_LEN {
+            let o: u8 = kani::any();
+            kani::assume(o <= if allow_spawn { OUT_SPAWN } else { OUT_HOST });
+            unsafe {
+                SCRIPT[i][k] = o;
+                SCRIPT[i + 3][k] = o;
+            }
+            k += 1;
+        }
+        i += 1;
+    }
+}
+
+pub(super) fn kind_code(k: &RuntimeStatusKind) -> u8 {
+    match k {
+        RuntimeStatusKind::Done => 1,
+        RuntimeStatusKind::PendingHostFunc => 2,
+        RuntimeStatusKind::OutOfSteps => 3,
+        RuntimeStatusKind::MainThreadError(e) => match e.kind {
+            VmErrorKind::DivisionByZero => 10,
+            VmErrorKind::IntegerOverflowUnderflow => 11,
+            _ => 19,
+        },
+    }
+}
+
+macro_rules! rt_harness {
+    ($(#[$attr:meta])* fn $name:ident() $body:block) => {
+        #[kani::proof]
+        #[kani::stub(VmGreenThread::run_n_steps, run_n_steps_stub)]
+        #[kani::stub(std::sync::mpsc::Receiver::try_recv, try_recv_stub)]
+        #[kani::stub(std::sync::mpsc::Sender::send, send_stub)]
+        $(#[$attr])*
+        fn $name() $body
+    };
+}
+
+// C11: one call of run_n_steps(budget), two threads, symbolic scripts and budget.
+rt_harness! {
+    #[kani::unwind(10)]
+    fn c11_status_truthful_two_threads() {
+        sym_scripts(false);
+        let budget: u32 = kani::any();
+        kani::assume(budget <= 4);
+        let mut rt = mk_runtime(0, 2);
+        unsafe { CUR_RT = 0; }
+        let st = rt.run_n_steps(budget);
+        let (logn, main_pos) = unsafe { (LOGN[0], POS[0]) };
+        assert!(!unsafe { STEPPED_NON_RUNNABLE }, "a thread that is done, failed or waiting for the host is never stepped");
+        assert!(!unsafe { BAD_STEP_ARG }, "threads are stepped one instruction at a time");
+        assert!(st.steps_consumed as usize == logn, "steps_consumed counts exactly the executed steps");
+        assert!(st.steps_consumed <= budget, "a budget of k executes at most k instructions");
+        // what the main thread's script did within the steps it was given
+        let mut main_done = false;
+        let mut main_err = false;
+        let mut main_host = false;
+        let mut k = 0;
+        while k < SCRIPT_LEN {
+            if k < main_pos {
+                let o = unsafe { SCRIPT[0][k] };
+                if o == OUT_DONE { main_done = true; }
+                if o == OUT_ERROR { main_err = true; }
+                if o == OUT_HOST { main_host = true; }
+            }
+            k += 1;
+        }
+        let code = kind_code(&st.kind);
+        if main_done {
+            assert!(code == 1, "completion is reported in the same call in which main finishes, whatever other tasks do");
+        } else {
+            assert!(code != 1, "Done is never reported while main has not finished");
+        }
+        if main_err {
+            assert!(code == 10, "a main-thread error is reported with its kind");
+        } else {
+            assert!(code != 10 && code != 11 && code != 19, "no error reported unless main failed");
+        }
+        if main_host {
+            assert!(code == 2, "a pending host call of main is reported");
+        }
+        // other thread pending host call => PendingHostFunc unless main decided the status
+        let other_pos = unsafe { POS[1] };
+        let mut other_host = false;
+        let mut k = 0;
+        while k < SCRIPT_LEN {
+            if k < other_pos && unsafe { SCRIPT[1][k] } == OUT_HOST { other_host = true; }
+            k += 1;
+        }
+        if code == 2 {
+            assert!(main_host || other_host, "PendingHostFunc only if some thread really waits for the host");
+        }
+        if other_host && !main_done && !main_err && !main_host {
+            assert!(code == 2, "a task's pending host call is surfaced");
+        }
+        kani::cover!(code == 1 && other_host, "req: main done while a task waits for the host");
+        kani::cover!(code == 10, "req: main error");
+        kani::cover!(code == 3 && st.steps_consumed == budget && budget == 4, "req: budget exhausted");
+        kani::cover!(code == 3 && st.steps_consumed < budget, "info: returns early with nothing runnable");
+        std::mem::forget(rt);
+    }
+}
+
+// C10 (scheduler layer): slicing a budget in two gives the same step sequence and status.
+rt_harness! {
+    #[kani::unwind(10)]
+    fn c10_budget_split_equivalent() {
+        sym_scripts(true);
+        let b1: u32 = kani::any();
+        let b2: u32 = kani::any();
+        kani::assume(b1 <= 3 && b2 <= 3);
+        let mut a = mk_runtime(0, 2);
+        let mut b = mk_runtime(1, 2);
+        unsafe { CUR_RT = 0; }
+        let s1 = a.run_n_steps(b1);
+        let mut code_a = kind_code(&s1.kind);
+        let mut consumed_a = s1.steps_consumed;
+        if code_a == 3 {
+            let s2 = a.run_n_steps(b2);
+            code_a = kind_code(&s2.kind);
+            consumed_a += s2.steps_consumed;
+        }
+        unsafe { CUR_RT = 1; }
+        let s = b.run_n_steps(b1 + b2);
+        let code_b = kind_code(&s.kind);
+        let (na, nb) = unsafe { (LOGN[0], LOGN[1]) };
+        // B may run further than A only if A stopped early on a non-OutOfSteps status at the cut
+        let n = if na < nb { na } else { nb };
+        let mut k = 0;
+        while k < 8 {
+            if k < n {
+                assert!(unsafe { LOG[0][k] == LOG[1][k] }, "the same threads are stepped in the same order");
+            }
+            k += 1;
+        }
+        if code_a == 3 || na == nb {
+            assert!(na == nb, "same number of steps");
+            assert!(code_a == code_b, "same final status");
+            assert!(consumed_a == s.steps_consumed, "same steps consumed in total");
+        }
+        kani::cover!(b1 > 0 && b2 > 0 && na == 6, "req: both slices used fully");
+        kani::cover!(unsafe { SPAWNED[0] }, "req: a spawn happened");
+        kani::cover!(code_a == 1, "req: main finished");
+        std::mem::forget(a); std::mem::forget(b);
+    }
+}
+
+// C11: top() is the last value pushed by main, also after it moved to finished_main_thread
+rt_harness! {
+    #[kani::unwind(10)]
+    fn c11_top_after_done() {
+        unsafe {
+            SCRIPT[0] = [OUT_CONTINUE, OUT_DONE, 0, 0];
+            SCRIPT[1] = [OUT_CONTINUE; SCRIPT_LEN];
+        }
+        let mut rt = mk_runtime(0, 2);
+        let v = sym_val(ValueTag::Int);
+        rt.run_queue[0].value_stack.push(Value::from(1i64));
+        rt.run_queue[0].value_stack.push(v);
+        unsafe { CUR_RT = 0; }
+        let st = rt.run_n_steps(10);
+        assert!(kind_code(&st.kind) == 1, "done");
+        assert!(st.steps_consumed == 3, "main, task, main");
+        let top = rt.top();
+        assert!(top.0 == v.0 && top.1 == v.1, "the final value is the last value main pushed");
+        assert!(rt.finished_main_thread.is_some());
+        kani::cover!(true, "req: reachable");
+        std::mem::forget(rt);
+    }
+}
+
+// Thread layer: run_n_steps(1) = maybe_gc(); step()  (budget is not visible to step)
+pub(super) static mut GC_CALLS: u32 = 0;
+pub(super) static mut STEP_CALLS: u32 = 0;
+pub(super) static mut STEP_RET: bool = true;
+pub(super) fn maybe_gc_ghost(_t: &mut VmGreenThread) {
+    unsafe { GC_CALLS += 1; }
+}
+pub(super) fn step_ghost(_t: &mut VmGreenThread) -> bool {
+    unsafe { STEP_CALLS += 1; STEP_RET }
+}
+#[kani::proof]
+#[kani::unwind(6)]
+#[kani::stub(VmGreenThread::maybe_gc, maybe_gc_ghost)]
+#[kani::stub(VmGreenThread::step, step_ghost)]
+fn c10_thread_run_n_steps_is_n_single_steps() {
+    let mut t = mk_thread(vec![Instr::Stop], vec![], vec![]);
+    let n: u32 = kani::any();
+    kani::assume(n <= 4);
+    let keep_going: bool = kani::any();
+    unsafe { STEP_RET = keep_going; }
+    t.run_n_steps(n);
+    let (g, s) = unsafe { (GC_CALLS, STEP_CALLS) };
+    if keep_going {
+        assert!(s == n && g == n, "n steps, each preceded by one collector increment");
+    } else {
+        assert!(s == if n > 0 { 1 } else { 0 } && g == s, "stops at the first step that suspends");
+    }
+    kani::cover!(n == 4 && keep_going, "req: four steps");
+    std::mem::forget(t);
+}
